@@ -209,8 +209,8 @@ PROPS = {
                 "child process that must exit with failure and name the exception on stderr. Non-trivial = the tree contains an inner handled "
                 "exception followed by normal completion of an enclosing body, or a throw from a handler; distinct = distinct trace hashes.",
         "stages": lambda tier: [
-            {"scen": "exc", "env": {}, "runs": 40000 if tier == "quick" else 2_000_000, "configs": ["plain"], "timeout": 6},
-            {"scen": "exc", "env": {}, "runs": 4000 if tier == "quick" else 200_000, "configs": ["asan"], "first": 10_000_000, "timeout": 6},
+            {"scen": "exc", "env": {}, "runs": 40000 if tier == "quick" else 2_000_000, "configs": ["plain"], "timeout": 30},
+            {"scen": "exc", "env": {}, "runs": 4000 if tier == "quick" else 200_000, "configs": ["asan"], "first": 10_000_000, "timeout": 30},
         ],
         "rare_probes": ["exc.outer_completes_after_inner_handled", "exc.throw_in_handler", "exc.lexical_nesting", "exc.lexical_nesting3",
                         "exc.throw_from_library", "exc.uncaught_programs", "exc.thread_programs"],
@@ -256,7 +256,7 @@ PROPS = {
         "stages": lambda tier: [
             {"scen": "threads", "env": {}, "runs": 3000 if tier == "quick" else 250_000, "configs": ["plain"], "timeout": 60, "chunk": 20},
             {"scen": "threads", "env": {}, "runs": 500 if tier == "quick" else 30_000, "configs": ["asan"], "first": 10_000_000, "timeout": 90, "chunk": 10},
-            {"scen": "exc", "env": {"threads": 3}, "runs": 1500 if tier == "quick" else 300_000, "configs": ["plain"], "first": 20_000_000, "timeout": 6},
+            {"scen": "exc", "env": {"threads": 3}, "runs": 1500 if tier == "quick" else 300_000, "configs": ["plain"], "first": 20_000_000, "timeout": 30},
             # memory-access granularity: /repo compiled with -fsanitize=thread, every non-stack load/store is a scheduling point
             {"scen": "threads", "env": {}, "runs": 1500 if tier == "quick" else 120_000, "configs": ["fine"], "first": 30_000_000, "timeout": 90, "chunk": 20},
             {"scen": "exc", "env": {"threads": 3}, "runs": 1500 if tier == "quick" else 150_000, "configs": ["fine"], "first": 40_000_000, "timeout": 60},
@@ -303,7 +303,7 @@ PROPS = {
             [{"scen": "containers", "env": {"focus": 18, "avoid_kf": AVOID_KF}, "runs": 2500 if tier == "quick" else 40_000, "configs": [c],
               "differential": True} for c in (["plain", "ndebug-o2", "nocache-o2", "ngc-o2", "o3"] if tier == "quick" else
               ["plain", "o0", "o2", "o3", "ndebug-o0", "ndebug-o2", "ndebug-o3", "nocache-o0", "nocache-o2", "nocache-o3", "ngc-o0", "ngc-o2", "ngc-o3"])] +
-            [{"scen": "exc", "env": {"threads": 0, "nolib": 1}, "runs": 2500 if tier == "quick" else 40_000, "configs": [c], "first": 30_000_000, "timeout": 6,
+            [{"scen": "exc", "env": {"threads": 0, "nolib": 1}, "runs": 2500 if tier == "quick" else 40_000, "configs": [c], "first": 30_000_000, "timeout": 30,
               "differential": True, "diff_keys": ["verdict", "hash"]} for c in (["plain", "ndebug-o2", "nocache-o2", "ngc-o2", "o3"] if tier == "quick" else
               ["plain", "o0", "o2", "o3", "ndebug-o0", "ndebug-o2", "ndebug-o3", "nocache-o0", "nocache-o2", "nocache-o3", "ngc-o0", "ngc-o2", "ngc-o3"])]),
         "rare_probes": ["new.seq", "new.table", "new.tree", "new.string", "seq.sort", "copy", "assign", "str.print_to", "exc.outer_completes_after_inner_handled"],
